@@ -137,6 +137,117 @@ static std::vector<ll> parse_ints(const std::string &s)
   return v;
 }
 
+
+// ------------------------------------------------------------------ iterator operation histories
+// every sequence of <= D iterator operations (all nine the interface offers) from begin(), against an
+// integer position; after every step the iterator must report that position and dereference to its coordinates
+template <int N>
+static vec_t<size_t, N> ref_coords(const vec_t<size_t, N> &d, size_t i);
+template <>
+vec_t<size_t, 2> ref_coords<2>(const vec_t<size_t, 2> &d, size_t i)
+{
+  return vec_t<size_t, 2>(i % d.x, i / d.x);
+}
+template <>
+vec_t<size_t, 3> ref_coords<3>(const vec_t<size_t, 3> &d, size_t i)
+{
+  return vec_t<size_t, 3>(i % d.x, (i / d.x) % d.y, i / (d.x * d.y));
+}
+template <int N>
+static std::string scoords(const vec_t<size_t, N> &c)
+{
+  std::string s = "(";
+  for (int k = 0; k < N; k++)
+    s += (k ? "," : "") + std::to_string(c[k]);
+  return s + ")";
+}
+static const char *const ITOP_NAME[9] = {"++it", "it++", "--it", "it--", "it+2", "it-1", "it+iterator(1)", "it-iterator(1)", "jump_to(total-1)"};
+template <int N>
+static void iter_histories(const vec_t<size_t, N> &dims, size_t total, Counters &C, const std::string &spec, const std::string &cls)
+{
+  typedef multidim_index_iterator<N> It;
+  const multidim_index_sequence<N> seq(dims);
+  const std::string A = "multidim_index_iterator<" + std::to_string(N) + ">";
+  const int D = vr::thorough() ? 5 : 4;
+  int ops[8];
+  long long nhist = 0;
+  bool reported = false;
+  std::function<void(int)> rec = [&](int depth) {
+    // replay the prefix ops[0..depth) on a fresh iterator
+    It it = seq.begin();
+    size_t m = 0;
+    std::string hist;
+    bool ok = true;
+    for (int k = 0; k < depth && ok; k++) {
+      const int op = ops[k];
+      size_t ret_pos = (size_t)-1;
+      bool have_ret = false, ret_is_self = true;
+      vec_t<size_t, N> ret_val(0);
+      const It *self = &it;
+      switch (op) {
+      case 0: { m += 1; It r = ++it; ret_pos = r.current(); have_ret = true; if (m < total) ret_val = *r; break; }
+      case 1: { m += 1; It &r = it++; ret_is_self = (&r == self); break; }
+      case 2: { m -= 1; It r = --it; ret_pos = r.current(); have_ret = true; if (m < total) ret_val = *r; break; }
+      case 3: { m -= 1; It &r = it--; ret_is_self = (&r == self); break; }
+      case 4: { m += 2; It &r = it + (size_t)2; ret_is_self = (&r == self); break; }
+      case 5: { m -= 1; It &r = it - (size_t)1; ret_is_self = (&r == self); break; }
+      case 6: { m += 1; It o(dims, 1); It &r = it + o; ret_is_self = (&r == self); break; }
+      case 7: { m -= 1; It o(dims, 1); It &r = it - o; ret_is_self = (&r == self); break; }
+      default: { m = total - 1; it.jump_to(total - 1); break; }
+      }
+      hist += (k ? " ; " : "") + std::string(ITOP_NAME[op]);
+      if (k + 1 < depth)
+        continue;  // earlier steps were checked when they were the last step of a shorter history
+      C.states++;
+      C.trans += 4;
+      C.obs(m * 16 + op);
+      const vec_t<size_t, N> want = ref_coords<N>(dims, m < total ? m : 0);
+      std::string bad;
+      if (it.current() != m)
+        bad = "current() is " + std::to_string(it.current()) + " want " + std::to_string(m);
+      else if (m < total && !(*it == want))
+        bad = "*it is " + scoords<N>(*it) + " want " + scoords<N>(want);
+      else if (have_ret && ret_pos != m)
+        bad = "the returned iterator is at " + std::to_string(ret_pos) + " want " + std::to_string(m);
+      else if (have_ret && m < total && !(ret_val == want))
+        bad = "the returned iterator dereferences to " + scoords<N>(ret_val) + " want " + scoords<N>(want);
+      else if (!ret_is_self)
+        bad = "the returned reference is not the iterator itself";
+      else if ((it == seq.end()) != (m == total) || (it != seq.end()) != (m != total))
+        bad = "comparison with end() is wrong at position " + std::to_string(m);
+      else if ((it == seq.begin()) != (m == 0))
+        bad = "comparison with begin() is wrong at position " + std::to_string(m);
+      if (vr::replaying() && nhist < 60)
+        printf("  [%s] position %zu%s\n", hist.c_str(), m, bad.empty() ? "" : ("  <-- " + bad).c_str());
+      if (!bad.empty() && !reported) {
+        reported = true;
+        viol(C, A + " operation history|iterator state after " + ITOP_NAME[op] + " differs from the position reached|" + cls, spec,
+            "dims " + scoords<N>(dims) + " history from begin(): " + hist + " : " + bad);
+      }
+      if (!bad.empty())
+        ok = false;
+    }
+    if (depth > 0)
+      nhist++;
+    if (!ok || depth == D)
+      return;
+    for (int op = 0; op < 9; op++) {
+      // stay inside [0,total]: the interface defines nothing outside
+      const long long delta[9] = {1, 1, -1, -1, 2, -1, 1, -1, 0};
+      const long long nm = op == 8 ? (long long)total - 1 : (long long)m + delta[op];
+      if (nm < 0 || nm > (long long)total)
+        continue;
+      ops[depth] = op;
+      rec(depth + 1);
+    }
+  };
+  rec(0);
+  if (total == 8 && N == 3)
+    vr::sample(A + scoords<N>(dims) + ": every history of <= " + std::to_string(D) + " operations over {++it, it++, --it, it--, it+2, it-1, it+iterator, it-iterator, jump_to}: " +
+            std::to_string(nhist) + " histories",
+        "iterhist");
+}
+
 // ------------------------------------------------------------------ multidim_index_sequence<3>
 static void check_seq3(u64 dx, u64 dy, u64 dz)
 {
@@ -238,6 +349,8 @@ static void check_seq3(u64 dx, u64 dy, u64 dz)
           }
     }
   }
+  if (total >= 1 && total <= 30)
+    iter_histories<3>(vec_t<size_t, 3>(dx, dy, dz), (size_t)total, C, spec, cls);
   vr::sample("index_sequence_3D" + s3u(dx, dy, dz) + ": total " + s128(total) + ", flatten(dims-1) = " +
           (total ? std::to_string(seq.flatten(vec_t<size_t, 3>(dx - 1, dy - 1, dz - 1))) : std::string("-")),
       std::string("seq3") + cls);
@@ -343,6 +456,8 @@ static void check_seq2(u64 dx, u64 dy)
         }
     }
   }
+  if (total >= 1 && total <= 30)
+    iter_histories<2>(vec_t<size_t, 2>(dx, dy), (size_t)total, C, spec, cls);
   C.commit();
 }
 
@@ -900,24 +1015,27 @@ static void check_mslice(int dx, int dy, int n, int sd)
     viol(C, A + "::size|is not (slice.x, slice.y, number of slices)|" + cls, spec, "got " + s3(ba.size()));
   if (sd == 1 && ba.numElements() != (size_t)dx * dy * n)
     viol(C, A + "::numElements|is not slice cells times number of slices|" + cls, spec, "got " + std::to_string(ba.numElements()));
-  for (int z = 0; z < n; z++)
+  // z also outside [0,n): the adaptor's definition clamps the slice number (x,y stay inside the slice)
+  for (int zq = -2; zq <= n + 1; zq++)
     for (int y = 0; y < dy; y++)
       for (int x = 0; x < dx; x++) {
-        const T g = ba.get(vec3i(x, y, z));
-        const ll gp = (ll)bp.get(vec3i(x, y, z));
+        const int z = zq < 0 ? 0 : zq >= n ? n - 1 : zq;
+        const T g = ba.get(vec3i(x, y, zq));
+        const ll gp = (ll)bp.get(vec3i(x, y, zq));
         const T w = ms[z].at(x, y, 0);
         C.states++;
         C.trans += 2;
         C.obs((uint64_t)gp);
-        rp("get" + s3(x, y, z) + " = " + sval(g) + " want " + sval(w) + "; read cell " + decode(gp));
+        const std::string zc = zq == z ? "" : ", z outside [0,n) is clamped";
+        rp("get" + s3(x, y, zq) + " = " + sval(g) + " want " + sval(w) + "; read cell " + decode(gp));
         if (!(g == w))
-          viol(C, A + "::get|value is not cell (x,y,0) of slice z|" + cls, spec,
-              "slices " + sll(n) + " of " + s3(dx, dy, sd) + " get" + s3(x, y, z) + " = " + sval(g) + " want " + sval(w));
+          viol(C, A + "::get|value is not cell (x,y,0) of slice z" + zc + "|" + cls, spec,
+              "slices " + sll(n) + " of " + s3(dx, dy, sd) + " get" + s3(x, y, zq) + " = " + sval(g) + " want " + sval(w));
         if (gp != ProbeArray3D<T>::code(x, y, 0, z + 1))
-          viol(C, A + "::get|asks for a cell other than (x,y,0) of slice z|" + cls, spec,
-              "slices " + sll(n) + " of " + s3(dx, dy, sd) + " get" + s3(x, y, z) + " read cell " + decode(gp) + " want " + s3(x, y, 0) + " of slice " + sll(z));
+          viol(C, A + "::get|asks for a cell other than (x,y,0) of slice z" + zc + "|" + cls, spec,
+              "slices " + sll(n) + " of " + s3(dx, dy, sd) + " get" + s3(x, y, zq) + " read cell " + decode(gp) + " want " + s3(x, y, 0) + " of slice " + sll(z));
       }
-  vr::sample(A + " " + cls + " of " + s3(dx, dy, sd) + ": every cell", "mslice" + tn + cls);
+  vr::sample(A + " " + cls + " of " + s3(dx, dy, sd) + ": every cell, z in [-2,n+1]", "mslice" + tn + cls);
   C.commit();
 }
 
